@@ -933,7 +933,8 @@ class Interp:
                     # an opaque sequence: its elements by position (from the front, from the back), the rest as one term
                     base = self.to_nf(v)
                     for i, e in enumerate(t.elts[:k]):
-                        self._assign(e, Num(nf.fn("item", base, nf.const(i))), env, stmt)
+                        # (element i of the tuple an external call returns: the same object as in `a, b = f()`)
+                        self._assign(e, ExtObj(v.qual + f"[{i}]", {"of": v}, v.node, uid=self.new_uid()) if isinstance(v, ExtObj) else Num(nf.fn("item", base, nf.const(i))), env, stmt)
                     self._assign(t.elts[k].value, Num(nf.fn("items", base, nf.const(k), nf.const(-tail))), env, stmt)
                     for i, e in enumerate(t.elts[k + 1 :]):
                         self._assign(e, Num(nf.fn("item", base, nf.const(i - tail))), env, stmt)
